@@ -577,6 +577,9 @@ void
 		    new_len = alpha * *prev_len;
 		    extra = (new_len - *prev_len) * lword;	    
 		}
+		/* The reduced growth factor may no longer add a single entry;
+		   reporting success would make the caller retry forever. */
+		if ( extra <= 0 ) return (NULL);
 	    }
 
 	      /* Need to expand the memory: moving the content after the current MemType
